@@ -137,9 +137,35 @@ def generate(tier, rng):
                        steps=[dict(op="set", key=dict(form="ellipsis"), rhs=dict(kind="arr", arr=permute_desc(uni, s0, ps)))])
                   for p in perms(xs) for ps in perms(sd, 6)]
             fams.append(dict(stream="exact", family="C05", fixed="target", variants=vs))
+    fams += rank5_families(tier)
     fams += lifetime_families(tier)
     fams += stack_split_families(tier)
     fams += int_target_families(tier)
+    return fams
+
+
+def rank5_families(tier):
+    """rank 5: a key with one subset Dimension (items reversed) and two single items, read from / written to the same labelled
+    array stored in EVERY one of the 120 orders of its five dimensions"""
+    subdim = c06.subdim
+    u5 = mk_universe((2, 2, 2, 2, 2), "abcde")
+    xs = list("abcde")
+    x0 = dict(dims=xs, values=[(i * 7) % 31 + 1 for i in range(32)])
+    fams = []
+    for (s1, lst, s2) in ([("c", "b", "e")] if tier == "quick" else [("c", "b", "e"), ("a", "d", "b"), ("e", "a", "c")]):
+        key = dict(form="dict", entries=[["L", s1, ["single", u5[s1]["items"][1]]],
+                                         ["L", lst, ["dim", subdim(u5, lst, list(reversed(u5[lst]["items"])))]],
+                                         ["L", s2, ["single", u5[s2]["items"][0]]]])
+        u2 = c06._with_sub(u5, key)
+        vs = [dict(stream="exact", uni=u2, arr=permute_desc(u2, x0, p), steps=[dict(op="get", key=key)]) for p in perms(xs)]
+        fams.append(dict(stream="exact", family="C06", fixed="source", variants=vs))
+        st, sel = normalise(u2, xs, key)
+        rd = [d["letter"] for d in region_dims(u2, xs, sel)]
+        s0 = dict(dims=rd, values=[1000 + 3 * j for j in range(nelem(u2, rd))])
+        vs = [dict(stream="exact", uni=u2, arr=permute_desc(u2, x0, p),
+                   steps=[dict(op="set", key=key, rhs=dict(kind="arr", arr=permute_desc(u2, s0, ps)))])
+              for pi, p in enumerate(perms(xs)) for ps in ([rd, rd[::-1]][pi % 2],)]
+        fams.append(dict(stream="exact", family="C05", fixed="target", variants=vs))
     return fams
 
 
